@@ -31,9 +31,12 @@ ProjEq(e) == /\ fr' = FrOf(e) /\ pt' = PtOf(e) /\ free' = e.free /\ repl' = SetO
 
 Step(e) == CASE e.ev = "NewPage" -> NewPage /\ reply'.pid = e.pid
              [] e.ev = "FetchPage" -> FetchPage(e.pid)
+             [] e.ev = "FetchMissing" -> FetchMissing
              [] e.ev = "WriteUnpin" -> WriteUnpin(e.pid)
              [] e.ev = "UnpinClean" -> UnpinClean(e.pid)
              [] e.ev = "FlushPage" -> IF Resident(e.pid) THEN FlushPage(e.pid) ELSE UNCHANGED vars
+             [] e.ev = "FlushHold" -> FlushHold(e.pid)
+             [] e.ev = "FlushRelease" -> FlushRelease(e.pid)
              [] e.ev = "DeallocNoWait" -> DeallocNoWait(e.pid)
              [] e.ev = "LazyDeallocUnpin" -> LazyDeallocUnpin(e.pid)
 
@@ -80,16 +83,17 @@ TNext ==
        IF e.ev = "Reset"
          THEN /\ fr' = [f \in Fid |-> EmptyFrame] /\ pt' = [p \in Pid |-> NoFrame] /\ free' = [i \in 1..NF |-> i - 1]
               /\ repl' = {} /\ reuse' = <<>> /\ nextPid' = 0 /\ disk' = [p \in Pid |-> Never]
-              /\ latest' = [p \in Pid |-> 0] /\ live' = {} /\ virgin' = {} /\ reply' = [op |-> "init"]
+              /\ latest' = [p \in Pid |-> 0] /\ live' = {} /\ virgin' = {} /\ fl' = {} /\ reply' = [op |-> "init"]
               /\ UNCHANGED <<viol, diverged>>
        ELSE IF e.panic # "" \/ e.res = "nil"
          THEN /\ UNCHANGED vars
-              /\ viol' = IF Exhausted /\ e.ev \in {"NewPage", "FetchPage"} THEN viol
+              /\ viol' = IF Exhausted /\ e.ev \in {"NewPage", "FetchPage", "FetchMissing"} THEN viol
                          ELSE AddViol(viol, V("C13.panic", l, <<e.ev, e.pid, e.panic>>))
               /\ UNCHANGED diverged
          ELSE /\ fr' = FrOf(e) /\ pt' = PtOf(e) /\ free' = e.free /\ repl' = SetOf(e.repl) /\ reuse' = e.reuse
               /\ disk' = DiskOf(e) /\ nextPid' = e.nextPid
               /\ Ghosts(e)
+              /\ fl' = IF e.ev = "FlushHold" THEN fl \cup {e.pid} ELSE IF e.ev = "FlushRelease" THEN fl \ {e.pid} ELSE fl
               /\ reply' = [op |-> e.ev]
               /\ viol' = AddViol(viol, Checks(e, l))
               /\ diverged' = IF ENABLED (Step(e) /\ ProjEq(e)) THEN diverged ELSE (IF Len(diverged) < 50 THEN Append(diverged, l) ELSE diverged)
